@@ -625,3 +625,42 @@ Section History.
   (* minted transfers never carry stake: every KMint transfer of a history goes to the client
      that issued the collect / unlock *)
 End History.
+
+(* ---------- accrued rewards survive a re-stake ---------- *)
+
+Definition sp_reward_of (id : Z) (ps : list sp_dpool) : Z :=
+  match sp_find id ps with Some p => dp_reward p | None => 0 end.
+
+(* a lock (first stake or re-stake) changes nobody's accrued reward, the locker's included *)
+Lemma sp_lock_keeps_accrued_rewards : forall tx cbal sp vs sp' trs id,
+  sp_stake_pool_lock tx cbal sp vs = Some (sp', trs) ->
+  sp_reward_of id (sp_pools sp') = sp_reward_of id (sp_pools sp).
+Proof.
+  intros tx cbal sp vs sp' trs id H.
+  pose proof (sp_lock_moves_exact _ _ _ _ _ _ H) as (_ & _ & _ & _ & (dp' & Hf' & _ & _ & _ & _ & Hr') & Hoth & _).
+  unfold sp_reward_of. destruct (Z.eq_dec id (tx_client tx)) as [->|Hne].
+  - rewrite Hf', Hr'. reflexivity.
+  - rewrite Hoth by assumption. reflexivity.
+Qed.
+
+(* lock -> (reward, not collected) -> lock again -> unlock: the unlock pays the whole stake and
+   the reward that had accrued before the second lock *)
+Lemma sp_relock_then_unlock_pays_reward : forall tx cbal sp vs sp1 trs1 minter ssc offers sp2 trs2 dp,
+  sp_sorted (sp_pools sp) -> sp_find (tx_client tx) (sp_pools sp) = Some dp ->
+  sp_stake_pool_lock tx cbal sp vs = Some (sp1, trs1) ->
+  sp_unlock minter ssc (tx_client tx) offers sp1 = Some (sp2, trs2) ->
+  trs2 = sp_charge_part minter (tx_client tx) sp1 ++ sp_reward_part minter (tx_client tx) dp ++
+         [{| tr_from := ssc; tr_to := tx_client tx; tr_amount := dp_bal dp + tx_value tx |}].
+Proof.
+  intros tx cbal sp vs sp1 trs1 minter ssc offers sp2 trs2 dp Hs Hf Hl Hu.
+  pose proof (sp_lock_moves_exact _ _ _ _ _ _ Hl) as (_ & _ & _ & _ & (dp' & Hf' & _ & Hb' & _ & _ & Hr') & _).
+  assert (Hs1 : sp_sorted (sp_pools sp1)).
+  { apply sp_stake_pool_lock_is_core in Hl.
+    unfold sp_stake_pool_lock_core, sp_lock_pool in Hl. destruct (sp_validate_lock tx sp vs); [|discriminate].
+    destruct cbal; [|discriminate]. destruct (tx_value tx >? z); [discriminate|]. rewrite Hf in Hl.
+    destruct (negb _); [discriminate|]. destruct (sp_add_coin _ _); [|discriminate].
+    inversion Hl; subst. simpl. apply sp_insert_sorted. assumption. }
+  pose proof (sp_unlock_pays_exact _ _ _ _ _ _ _ Hs1 Hu) as (dp1 & Hf1 & -> & _).
+  rewrite Hf' in Hf1. inversion Hf1; subst dp1.
+  unfold sp_bal_of in Hb'. rewrite Hf in Hb', Hr'. unfold sp_reward_part. rewrite Hr', Hb'. reflexivity.
+Qed.
